@@ -325,3 +325,26 @@ func PendingTimers() int {
 	}
 	return n
 }
+
+// TimerDeadlines returns the deadlines (ns) of all armed timers in ascending
+// order; harnesses fold them into state keys.
+//
+//go:norace
+func TimerDeadlines() []int64 {
+	e := cur
+	if e == nil {
+		return nil
+	}
+	var out []int64
+	for _, t := range e.timers {
+		if t.active {
+			out = append(out, t.when)
+		}
+	}
+	for i := 1; i < len(out); i++ {
+		for j := i; j > 0 && out[j] < out[j-1]; j-- {
+			out[j], out[j-1] = out[j-1], out[j]
+		}
+	}
+	return out
+}
